@@ -9,11 +9,12 @@ REGRESS = {'c6da5e0':'C02','ed37301':'C03','bc2c2ae':'C04','ca9c2c9':'C07','3f41
 # changes whose defect is a concurrency defect filed under a sequential property: judged by the neighbouring check
 OTHER = {'C02-r2a':'C04','C11-r2b':'C17','C12-r2a':'C17'}
 jobs = []
+DONE = set(os.environ.get('RECHECK_SKIP','').split(','))
 for d in sorted(glob.glob('seeded/C*-*')):
     k = os.path.basename(d)
     if not k.startswith(prefix): continue
     prop = json.load(open(d+'/meta.json'))['property']
-    jobs.append((k, d+'/patch.diff', OTHER.get(k, prop)))
+    if k not in DONE: jobs.append((k, d+'/patch.diff', OTHER.get(k, prop)))
 for f in sorted(glob.glob('seeded/regress/revert-*.diff')):
     c = re.search(r'revert-(\w+)\.diff', f).group(1)
     if ('regress-'+c).startswith(prefix) or prefix == '':
